@@ -283,11 +283,18 @@ def run(tier: str, seed: int) -> Report:
         "mandatory lists are taken from the arguments (gallia defaults: sessions [1], services [DiagnosticSessionControl])",
         "only Python 3.12 is installed: determinism across Python versions is not covered",
     ]
+    import time as _t
+
+    t0 = _t.time()
+    stage: dict[str, float] = {}
+    rep.extra["stage_wall_s"] = stage
     # ---- 1. design layer vs contract (exhaustive, small constants) + negative controls
     _model_check(rep, tier)
+    stage["model_checking"] = round(_t.time() - t0, 1)
     # ---- 2. spec <-> code on the generator (all coin-flip outcomes, both sides)
     next_id = 1_000_000
     gen_cases, gen_info = _generator_graphs(rep, tier, next_id)
+    stage["generator_enumeration"] = round(_t.time() - t0, 1)
     # ---- 3. real ECUs in separate processes, TLC decides
     vs = L.variants(seed)
     rep.extra["process_variants"] = vs
@@ -327,6 +334,7 @@ def run(tier: str, seed: int) -> Report:
                 v = verd[t["id"]]
                 if v["a"]["v"] == "ok" and v["b"]["v"] == "ok" and len(t["runs"][0]["tr"]) > 500 and first_ok is None:
                     first_ok = (copy.deepcopy(t), next(c for c in chunk if c["id"] == t["id"]))
+    stage["processes_and_trace_validation"] = round(_t.time() - t0, 1)
     for r in tlc_results:
         rep.add_tlc(r, "Trace_VEcuModel batch")
     if len(tlc_results) > 6:  # keep the evidence file small
@@ -366,7 +374,7 @@ def run(tier: str, seed: int) -> Report:
     # mutant of the system under test as seen through the binding: a generator drawing from the global RNG
     mvs = [dict(vs[0]), dict(vs[1], mutant="global_rng", name="Bm"), dict(vs[2], mutant="global_rng", name="Cm")]
     mvs[0]["mutant"] = "global_rng"
-    mcases = [dict(c, id=3_000_010 + i) for i, c in enumerate(cases[:2])]
+    mcases = [dict(c, id=3_000_010 + i) for i, c in enumerate([cases[0], cases[3]])]  # default and p=0.5 arguments
     mres = L.run_children(mcases, mvs, chunk=2, workers=3)
     mt = _build_tcases(mcases, mvs, mres)
     verd, results = L.validate([m[0] for m in muts] + mt, per_batch=8, workers=2)
@@ -378,6 +386,7 @@ def run(tier: str, seed: int) -> Report:
     mgot = [verd[c["id"]]["b"]["v"] for c in mcases]
     if any(v == "ok" for v in mgot):
         raise Machinery(f"binding self-test: a generator that uses the global random module was accepted: {mgot}")
+    stage["selftests"] = round(_t.time() - t0, 1)
     rep.extra["binding_selftest"] = {"corrupted_real_traces_rejected": [list(g) for g in got],
                                      "global_rng_mutant_rejected": mgot}
     return rep
